@@ -716,6 +716,12 @@ func fileEntryScenario(r *mc.Run) {
 	}
 	var jobs []job
 	docs := append(fixedDocs(), mkDoc([]Pick{{}}, 0, nil, 0), mkDoc([]Pick{{Body: 4, Maint: 2, Date: 4, Opts: 3}}, 1, nil, 1), mkDoc([]Pick{{Body: 11, Dists: 2, Version: 3}}, 0, nil, 2), mkDoc([]Pick{{Body: base.body, Maint: base.maint, Opts: base.opts, Dists: base.dists}, {Body: base.body + 1, Maint: base.maint + 1}}, 0, []int{1}, 0))
+	// large first blocks: the topmost entry is as long as 64 KiB-1, 64 KiB, 64 KiB+1, 128 KiB, 200 000 bytes (one very
+	// long body line) or has 1500 body lines; alone and followed by a second entry. Intact and without the
+	// final newline only (their prefixes are not explored).
+	for _, d := range bigFirstBlockDocs() {
+		jobs = append(jobs, job{d, "", 0, ""}, job{d, "no-final-newline", 0, ""})
+	}
 	for _, d := range docs {
 		jobs = append(jobs, job{d, "", 0, ""}, job{d, "no-final-newline", 0, ""})
 		text, lay := d.Render()
@@ -761,7 +767,7 @@ func fileEntryScenario(r *mc.Run) {
 		}
 	}
 	r.Scenario("file-entry-points", map[string]interface{}{"entry_points": entryPoints, "functions": "ParseFile (API Parse), ParseFileOne (API ParseOne: first entry)",
-		"inputs": len(jobs), "slice": "10 changelogs (1..3 entries, one with the byte classes): intact, final newline absent, 13 truncation points per entry, first and last occurrence of each substitution",
+		"inputs": len(jobs), "large_first_blocks": "first entry of exactly 65535, 65536, 65537, 131072, 200000 bytes (one long line) and of 1500 body lines (69 KB), alone and followed by a second entry", "slice": "10 changelogs (1..3 entries, one with the byte classes): intact, final newline absent, 13 truncation points per entry, first and last occurrence of each substitution",
 		"file_kinds": "regular file (also empty: prefix 0), symlink to it, named pipe fed by a goroutine, directory, missing", "oracle": "the property's clauses, and the same outcome as Parse / ParseOne through a reader on the same bytes; missing file / directory: error and no entries"}, len(jobs),
 		func(i int, st *mc.Stats) bool {
 			j := jobs[i]
@@ -784,6 +790,36 @@ func fileEntryScenario(r *mc.Run) {
 			}
 			return true
 		})
+}
+
+// bigFirstBlockDocs: changelogs whose first entry block has an exact large size (a long body line), or many lines.
+func bigFirstBlockDocs() []Doc {
+	var out []Doc
+	mk := func(first Entry, second bool) Doc {
+		d := Doc{Entries: []Entry{first}}
+		if second {
+			d.Entries = append(d.Entries, mkEntry(Pick{Body: 1, Date: 1}, 1, 2))
+			d.Between = []int{1}
+		}
+		return d
+	}
+	for _, target := range []int{64<<10 - 1, 64 << 10, 64<<10 + 1, 128 << 10, 200000} {
+		e := mkEntry(Pick{}, 0, 2)
+		e.Body = []string{"  * short line before", "  * ", "  * short line after"}
+		d := mk(e, false)
+		_, lay := d.Render()
+		e.Body[1] = "  * " + strings.Repeat("x", target-(lay.End[0]-lay.Start[0]))
+		out = append(out, mk(e, false), mk(e, true))
+	}
+	for _, n := range []int{1500} { // many lines: about 69 KB (the library appends line by line, which is quadratic: kept moderate)
+		e := mkEntry(Pick{Maint: 1, Date: 2}, 0, 2)
+		e.Body = nil
+		for i := 0; i < n; i++ {
+			e.Body = append(e.Body, fmt.Sprintf("  * change number %05d of many in one upload", i))
+		}
+		out = append(out, mk(e, false), mk(e, true))
+	}
+	return out
 }
 
 // selfCheck: the renderer against a literal, the weekday rule against package time, the layout against the text.
